@@ -223,22 +223,42 @@ func (e *Engine) addPC(st *State, t *Term) {
 		return
 	}
 	if !e.pure {
-		if x := e.ctx.unaryByteVar(t); x != nil {
-			nd := e.ctx.satisfying(t, x, st.domOf(x))
-			st.setDom(x, &nd)
-		} else {
-			for _, v := range e.ctx.termVars(t) {
-				if v.w == 8 {
-					d := st.domOf(v)
-					if !d.mixed {
-						d.mixed = true
-						st.setDom(v, &d)
-					}
-				}
+		e.narrow(st, t, 0)
+	}
+	st.addPC(t)
+}
+
+// narrow updates the byte domains from a constraint that now holds: a conjunction narrows
+// through each conjunct; a unary atom intersects its variable's domain; anything else marks the
+// 8-bit variables it mentions as "mixed" (they occur in a non-unary constraint).
+func (e *Engine) narrow(st *State, t *Term, depth int) {
+	if x := e.ctx.unaryByteVar(t); x != nil {
+		nd := e.ctx.satisfying(t, x, st.domOf(x))
+		st.setDom(x, &nd)
+		return
+	}
+	if depth < 24 {
+		if t.op == OpAnd {
+			e.narrow(st, t.args[0], depth+1)
+			e.narrow(st, t.args[1], depth+1)
+			return
+		}
+		if t.op == OpNot && t.args[0].op == OpOr {
+			in := t.args[0]
+			e.narrow(st, e.ctx.Not(in.args[0]), depth+1)
+			e.narrow(st, e.ctx.Not(in.args[1]), depth+1)
+			return
+		}
+	}
+	for _, v := range e.ctx.termVars(t) {
+		if v.w == 8 {
+			d := st.domOf(v)
+			if !d.mixed {
+				d.mixed = true
+				st.setDom(v, &d)
 			}
 		}
 	}
-	st.addPC(t)
 }
 
 func (st *State) setDom(x *Term, d *byteDom) {
